@@ -484,7 +484,13 @@ func (app *NibiruApp) Name() string { return app.BaseApp.Name() }
 
 // BeginBlocker application updates every begin block
 func (app *NibiruApp) BeginBlocker(ctx sdk.Context, req abci.RequestBeginBlock) abci.ResponseBeginBlock {
-	return app.ModuleManager.BeginBlock(ctx, req)
+	// Module BeginBlockers run on their own gas meter. Gas they consume on the
+	// block's context would otherwise be reported as GasUsed of transactions that
+	// are rejected before the ante handler, and some of that work happens only in
+	// the first block of a process lifetime (x/upgrade downgrade verification,
+	// x/capability mem store), so a restarted node would report another value
+	// than its peers.
+	return app.ModuleManager.BeginBlock(ctx.WithGasMeter(sdk.NewInfiniteGasMeter()), req)
 }
 
 // EndBlocker application updates every end block
